@@ -212,6 +212,7 @@ def shards(tier, seed):
             for part in range(4):
                 out.append(("len4_%s_%d" % (nm, part), dict(kind="lenN", reader=nm, n=4, part=part, parts=4)))
     out.append(("roundtrip_int_len", dict(kind="rt_int_len", big=not q)))
+    out.append(("long_lengths", dict(kind="long_lengths")))
     out.append(("roundtrip_oid", dict(kind="rt_oid", count=400 if q else 6000)))
     out.append(("roundtrip_bodies", dict(kind="rt_bodies", big=not q)))
     for i in range(2 if q else 8):
@@ -252,6 +253,41 @@ def run(ctx, name, kind, **kw):
     elif kind == "lenN_length":
         for v in range(kw["part"] * 256 ** 3 // kw["parts"], (kw["part"] + 1) * 256 ** 3 // kw["parts"]):
             judge_len(ctx, v.to_bytes(3, "big"), stats)
+        flush(ctx, stats)
+    elif kind == "long_lengths":
+        # length fields with 1..8 length bytes: minimal, zero-padded, and values on both sides of every byte boundary
+        vals = [0, 1, 0x7F, 0x80, 0xFF, 0x100, 0x101, 0x7FFF, 0xFFFF, 0x10000, 0xFFFFFF, 0x1000000, 0xFFFFFFFF, 0x100000000]
+        for llen in range(1, 9):
+            for v in vals:
+                if v >= 1 << (8 * llen):
+                    continue
+                for tail in (b"", b"\x00", b"\xaa\xbb"):
+                    judge_len(ctx, bytes([0x80 | llen]) + v.to_bytes(llen, "big") + tail, stats)
+            judge_len(ctx, bytes([0x80 | llen]) + b"\xff" * llen, stats)
+            judge_len(ctx, bytes([0x80 | llen]) + b"\x00" * llen, stats)
+            judge_len(ctx, bytes([0x80 | llen]) + b"\x01" * (llen - 1), stats)        # one length byte missing
+        # the same through the TLV readers, with real bodies of 256+ bytes
+        body = bytes(range(256)) * 2
+        for nm in ("octet_string", "sequence", "constructed", "bitstring_0", "integer", "object"):
+            group, libf, reff, reenc, tags = rd[nm]
+            for blen in (127, 128, 255, 256, 257, 300, 511):
+                b = body[:blen]
+                if nm == "integer":
+                    b = b"\x01" + b[1:]
+                elif nm == "bitstring_0":
+                    b = b"\x00" + b[1:]
+                elif nm == "object":
+                    b = bytes(x & 0x7F for x in b[:-1]) + b"\x01"
+                canon = bytes([tags[0]]) + R.enc_len(blen) + b
+                judge(ctx, nm, group, libf, reff, reenc, canon, stats)
+                judge(ctx, nm, group, libf, reff, reenc, canon + b"\x05\x00", stats)
+                for pad in (1, 2, 3):
+                    raw = blen.to_bytes((blen.bit_length() + 7) // 8, "big")
+                    padded = bytes([tags[0], 0x80 | (len(raw) + pad)]) + b"\x00" * pad + raw + b
+                    judge(ctx, nm, group, libf, reff, reenc, padded, stats)
+                judge(ctx, nm, group, libf, reff, reenc, canon[:-1], stats)
+                judge(ctx, nm, group, libf, reff, reenc, bytes([tags[0]]) + R.enc_len(blen + 1) + b, stats)
+                judge(ctx, nm, group, libf, reff, reenc, bytes([tags[0]]) + R.enc_len(blen - 1) + b, stats)
         flush(ctx, stats)
     elif kind == "rt_int_len":
         vals = list(range(0, 301))
